@@ -137,7 +137,7 @@ Proof.
   destruct ts; try apply abs_zero_row. simpl. now rewrite abs_zero_row'.
 Qed.
 Lemma abs_mk_any sc tag z : abs_slot (mk_any sc tag z) = vmk_any sc tag z.
-Proof. unfold mk_any, vmk_any. destruct (Nat.ltb tag 5); simpl; auto. now rewrite abs_zero_row'. Qed.
+Proof. unfold mk_any, vmk_any. destruct (Nat.ltb tag 5); simpl; auto. destruct (Nat.eqb tag 7); simpl; auto. now rewrite abs_zero_row'. Qed.
 
 Lemma abs_cs s : is_cs s = true -> abs_slot s = VS (map abs_row (cs_live s)).
 Proof. destruct s as [| | |[[[a l] t]|]]; simpl; try discriminate; auto. Qed.
@@ -207,7 +207,7 @@ Proof. destruct rows; reflexivity. Qed.
 Lemma abs_craw r : abs_slot (craw r) = vraw r.
 Proof.
   induction r as [|t z|zs|kvs IH|l IH] using raw_ind'; simpl; auto.
-  - pose proof (abs_prim_copy (map (fun z => [CP z]) zs) (CS None) eq_refl) as E. simpl in E. rewrite E.
+  - pose proof (abs_prim_copy (map (fun z => [CP z]) zs) cempty_bytes eq_refl) as E. simpl in E. rewrite E.
     unfold abs_row. rewrite map_map. reflexivity.
   - rewrite abs_mk_cs. unfold abs_row. rewrite map_map. f_equal. f_equal. f_equal. f_equal. f_equal.
     apply map_ext_Forall. eapply Forall_impl; [|exact IH]. intros kv H. simpl. now rewrite H.
@@ -240,7 +240,7 @@ Proof.
     destruct s as [| | |[[[a l] t]|]]; try discriminate; simpl; auto.
     destruct (find_idx (key_is k) l); simpl; fold abs_row; auto. now rewrite swap_remove_map.
   - rewrite abs_prim_copy by auto. now rewrite abs_prim_rows.
-  - pose proof (abs_prim_copy (prim_rows zs) (CS None) eq_refl) as E. simpl in E. rewrite E. now rewrite abs_prim_rows.
+  - pose proof (abs_prim_copy (prim_rows zs) cempty_bytes eq_refl) as E. simpl in E. rewrite E. now rewrite abs_prim_rows.
   - apply abs_craw.
   - rewrite abs_mk_cs. unfold abs_row. rewrite map_map. f_equal. apply map_ext. intros kv. simpl. now rewrite abs_craw.
   - rewrite abs_mk_cs. unfold abs_row. rewrite map_map. f_equal. apply map_ext. intros v. simpl. now rewrite abs_craw.
@@ -267,6 +267,10 @@ Proof. induction 1 as [|r l Hr _ IH]; intros dl; simpl; auto. now rewrite Hr, IH
 
 Lemma abs_map_cfresh r : map abs_slot (map cfresh r) = map abs_slot r.
 Proof. rewrite map_map. apply map_ext. apply abs_cfresh. Qed.
+Lemma abs_bytes_clone s : abs_slot (cbytes_clone s) = abs_slot s.
+Proof. destruct s as [| |r|[[[a l] t]|]]; try apply abs_cfresh; simpl; auto. f_equal. rewrite map_map. apply map_ext. intros q. rewrite map_map. apply map_ext. apply abs_cfresh. Qed.
+Lemma abs_map_bytes_clone r : map abs_slot (map cbytes_clone r) = map abs_slot r.
+Proof. rewrite map_map. apply map_ext. apply abs_bytes_clone. Qed.
 Lemma abs_rows_cfresh live : map (map abs_slot) (map (map cfresh) live) = map (map abs_slot) live.
 Proof. rewrite map_map. apply map_ext. intros r. apply abs_map_cfresh. Qed.
 
@@ -283,7 +287,7 @@ Proof.
     + destruct d as [| |[[[a' tg'] dr]|]|]; simpl; now rewrite R.
     + now rewrite R.
     + destruct (Nat.eqb tg 7) eqn:E7; simpl.
-      * apply Nat.eqb_eq in E7. subst. now rewrite abs_map_cfresh.
+      * apply Nat.eqb_eq in E7. subst. now rewrite abs_map_bytes_clone.
       * destruct d as [| |[[[a' tg'] dr]|]|]; simpl; try (now rewrite R).
         destruct (Nat.eqb tg tg'); simpl; now rewrite R.
   - destruct t; simpl; auto; destruct d as [| | |[[[a' dl] dt]|]]; reflexivity.
